@@ -33,12 +33,12 @@ import (
 // and for Go strings (strlen, strcat, strsub of the prelude):
 //
 //	strlen(a+b) == strlen(a)+strlen(b);  (a+b)[0:len(a)] == a;  (a+b)[len(a):len(a)+len(b)] == b
-//	s[0:len(s)] == s;  s[lo:k] + s[k:hi] == s[lo:hi]                  for 0 <= lo <= k <= hi <= len(s)
+//	(a+b)+c == a+(b+c);  s[0:len(s)] == s;  s[lo:k] + s[k:hi] == s[lo:hi]                  for 0 <= lo <= k <= hi <= len(s)
 //	strlen(s[lo:hi]) == hi-lo                                          for 0 <= lo <= hi <= len(s)
 const algebraNote = "trusted model: T-BYTES algebra of byte strings and Go strings (blen/sub/cat/seq, strlen/strcat/strsub: the laws of finite sequences; ext_bytesalgebra.go)"
 
 func (fc *FnCtx) algebraOn() bool {
-	for _, u := range []string{"blen", "bsub", "strseq"} {
+	for _, u := range []string{"blen", "bsub", "strseq", "stralg"} {
 		if _, ok := fc.ufs[u]; ok {
 			return true
 		}
@@ -66,6 +66,17 @@ func (e *SpecEnv) evalAlgebraBuiltin(name string, args []Expr) (SV, bool) {
 		fc.eng.declareUF(fc, "bsub", []string{"Int", "Int", "Int"}, "Int")
 		fc.assumes[algebraNote] = true
 		return SV{t: app("bsub", c.t, lo.t, hi.t), typ: mathInt}, true
+	case "noaxioms":
+		// noaxioms(): true; in a lemma's `requires` it keeps the property-scoped axioms out of that lemma (ext_lemma_axioms.go),
+		// so that a purely arithmetic lemma stays in a decidable fragment (a counter-model is then found at once)
+		noLemmaAxioms[fc] = true
+		return SV{t: "true", typ: boolT}, true
+	case "stralgebra":
+		// stralgebra(): true; switches the algebra axioms on for the function / lemma whose specification (or a scoped axiom,
+		// e.g. `axiom @C33 stralgebra()`) mentions it -- for specifications that use only Go strings (a + b, s[lo:hi], len)
+		fc.eng.declareUF(fc, "stralg", nil, "Bool")
+		fc.assumes[algebraNote] = true
+		return SV{t: "true", typ: boolT}, true
 	case "bytestr":
 		// bytestr(b): the Go string string(b) of a byte slice (the term the engine uses for the conversion in code)
 		if len(args) != 1 {
@@ -149,6 +160,7 @@ func (fc *FnCtx) algebraAxioms() string {
 	// Go strings
 	ax("(a Str) (b Str)", "(and (= (strlen (strcat a b)) (+ (strlen a) (strlen b))) (= (strsub (strcat a b) 0 (strlen a)) a)"+
 		" (= (strsub (strcat a b) (strlen a) (+ (strlen a) (strlen b))) b))", ":pattern ((strcat a b))")
+	ax("(a Str) (b Str) (c Str)", "(= (strcat (strcat a b) c) (strcat a (strcat b c)))", ":pattern ((strcat (strcat a b) c))")
 	ax("(s Str) (hi Int)", "(=> (= hi (strlen s)) (= (strsub s 0 hi) s))", ":pattern ((strsub s 0 hi))")
 	ax("(s Str) (lo Int) (hi Int)", "(=> (and (<= 0 lo) (<= lo hi) (<= hi (strlen s))) (= (strlen (strsub s lo hi)) (- hi lo)))", ":pattern ((strsub s lo hi))")
 	ax("(s Str) (lo Int) (k Int) (hi Int)",
